@@ -15,33 +15,40 @@ def classesOf (cfg : Config) (g : Graph) (n : String) : List String :=
 /-- `n` is selected for at least one class -/
 def isSelected (cfg : Config) (g : Graph) (n : String) : Bool := g.any fun t => selects cfg t && t.s.key == n
 
+/-- the selection as a function: which classes (labels) a node key is selected for.  For class
+targets it is `classesOf` (theorem `Tracker.get?_track`), with an instance cap the selection of the
+restricted document (C16), for shape maps the denotation of the selectors (C10). -/
+abbrev Selection := Tracker.InstDict
+
+def classesIn (sel : Selection) (n : String) : List String := (Dict.get? sel n).getD []
+
 /-- the shapes a node value is an instance of (profiler's default shapes namespace) -/
-def shapesOfValue (cfg : Config) (g : Graph) (k : String) : List String :=
-  (classesOf cfg g k).map fun c => Profiler.shapeName c "http://weso.es/shapes/"
+def shapesOfValue (sel : Selection) (k : String) : List String :=
+  (classesIn sel k).map fun c => Profiler.shapeName c "http://weso.es/shapes/"
 
 /-- types an object contributes to for property `p`: its datatype / node kind (the class IRI itself
 for the instantiation property) and, for node values, the shape of every class it is selected for -/
-def objTypes (cfg : Config) (g : Graph) (p : String) (o : Term) : List String :=
+def objTypes (cfg : Config) (sel : Selection) (p : String) (o : Term) : List String :=
   let ty := Profiler.typeOf cfg p o
-  ty :: (if ty == Gen.IRI_ELEM_TYPE || ty == Gen.BNODE_ELEM_TYPE then shapesOfValue cfg g o.key else [])
+  ty :: (if ty == Gen.IRI_ELEM_TYPE || ty == Gen.BNODE_ELEM_TYPE then shapesOfValue sel o.key else [])
 
 /-- same for the subject of an incoming link (blank-node subjects get no shape reference, by design) -/
-def subjTypes (cfg : Config) (g : Graph) (p : String) (s : Term) : List String :=
+def subjTypes (cfg : Config) (sel : Selection) (p : String) (s : Term) : List String :=
   let ty := Profiler.typeOf cfg p s
-  ty :: (if ty == Gen.IRI_ELEM_TYPE then shapesOfValue cfg g s.key else [])
+  ty :: (if ty == Gen.IRI_ELEM_TYPE then shapesOfValue sel s.key else [])
 
 /-- the triples the feature pass sees -/
 def visible (cfg : Config) (g : Graph) : Graph := g.filter (Profiler.passesFilter cfg)
 
 /-- number of values of type `ty` that node `n` has for property `p` (outgoing) -/
-def outCount (cfg : Config) (g : Graph) (n p ty : String) : Nat :=
+def outCount (cfg : Config) (sel : Selection) (g : Graph) (n p ty : String) : Nat :=
   (((visible cfg g).filter fun t => t.s.isNode && t.s.key == n && t.p == p).map
-    fun t => (objTypes cfg g p t.o).count ty).sum
+    fun t => (objTypes cfg sel p t.o).count ty).sum
 
 /-- number of incoming links of type `ty` that node `n` has for property `p` -/
-def inCount (cfg : Config) (g : Graph) (n p ty : String) : Nat :=
+def inCount (cfg : Config) (sel : Selection) (g : Graph) (n p ty : String) : Nat :=
   (((visible cfg g).filter fun t => t.o.isNode && t.o.key == n && t.p == p).map
-    fun t => (subjTypes cfg g p t.s).count ty).sum
+    fun t => (subjTypes cfg sel p t.s).count ty).sum
 
 /-- does a node with `k` values fall under cardinality `card`?  `{j}`: exactly `j` (`j ≥ 1`);
 `+`: at least one; for the instantiation property the profile only ever records `{1}`, meaning
@@ -53,15 +60,38 @@ def cardMatches (cfg : Config) (p : String) (card : Card) (k : Nat) : Bool :=
     | Card.plus => decide (1 ≤ k)
     | _ => false
 
-/-- number of instances of class `c` that have, for (direction, property, type), a number of values
-matching `card` — counted over any duplicate-free enumeration `nodes` of the selected nodes -/
-def countOver (cfg : Config) (g : Graph) (nodes : List String) (c : String) (inv : Bool) (p ty : String) (card : Card) : Nat :=
-  (nodes.filter fun n => (classesOf cfg g n).contains c).countP fun n =>
-    cardMatches cfg p card (if inv then inCount cfg g n p ty else outCount cfg g n p ty)
+/-- number of selected nodes of class `c` that have, for (direction, property, type), a number of
+values matching `card` -/
+def countOver (cfg : Config) (sel : Selection) (g : Graph) (c : String) (inv : Bool) (p ty : String) (card : Card) : Nat :=
+  ((Dict.keys sel).filter fun n => (classesIn sel n).contains c).countP fun n =>
+    cardMatches cfg p card (if inv then inCount cfg sel g n p ty else outCount cfg sel g n p ty)
+
+/-- number of non-literal values (IRIs and blank nodes together) -/
+def nonlitCount (cfg : Config) (sel : Selection) (g : Graph) (inv : Bool) (n p : String) : Nat :=
+  if inv then inCount cfg sel g n p Gen.IRI_ELEM_TYPE + inCount cfg sel g n p Gen.BNODE_ELEM_TYPE
+  else outCount cfg sel g n p Gen.IRI_ELEM_TYPE + outCount cfg sel g n p Gen.BNODE_ELEM_TYPE
+
+/-- what a `NONLITERAL` figure ought to mean: instances whose number of non-literal values matches -/
+def countOverNonlit (cfg : Config) (sel : Selection) (g : Graph) (c : String) (inv : Bool) (p : String) (card : Card) : Nat :=
+  ((Dict.keys sel).filter fun n => (classesIn sel n).contains c).countP fun n =>
+    cardMatches cfg p card (nonlitCount cfg sel g inv n p)
 
 /-- number of selected nodes of class `c` -/
-def classSizeOver (cfg : Config) (g : Graph) (nodes : List String) (c : String) : Nat :=
-  (nodes.filter fun n => (classesOf cfg g n).contains c).length
+def classSize (sel : Selection) (c : String) : Nat :=
+  ((Dict.keys sel).filter fun n => (classesIn sel n).contains c).length
+
+/-- first occurrences, in order -/
+def dedup : List String → List String
+  | [] => []
+  | x :: xs => x :: (dedup xs).filter (· != x)
+
+/-- the selected nodes in first-occurrence order -/
+def selectedNodes (cfg : Config) (g : Graph) : List String := dedup ((g.filter (selects cfg)).map (·.s.key))
+
+/-- the declarative selection for class targets / all-classes mode (no cap): selected nodes in
+first-occurrence order, each with its classes in document order -/
+def selectionOf (cfg : Config) (g : Graph) : Selection :=
+  (selectedNodes cfg g).map fun n => (n, classesOf cfg g n)
 
 end Spec
 end Shexer
